@@ -334,7 +334,9 @@ Section Standard.
     | None => None
     | Some ms =>
       if e_convert env && is_some (sd_bin s) then
-        Some (mkSD (sd_path s) (sd_match_count s) ar (sd_bin s) (sd_stats s) ms (sd_wtr s), Halt)
+        (* the context line is suppressed, the search goes on *)
+        Some (mkSD (sd_path s) (sd_match_count s) ar (sd_bin s) (sd_stats s) ms (sd_wtr s),
+              reply_of (negb (sd_should_quit (sd_match_count s) ar)))
       else
         let sk := mkSunk (c_bytes c) (c_off c) (c_lnum c) (Some (c_kind c)) ms in
         let w := impl_sink (sd_path s) sk (sd_wtr s) in
